@@ -138,7 +138,11 @@ pub fn serialise_cfg(c: &cfg::Cfg, hist: &[HEv]) -> (String, Ser) {
     }
     let mut ents: Vec<String> = vec![];
     let mut cnt = 0;
-    for y in r0.iter() {
+    // `Src` indexes src_keys by the column whatever the row, so virtual-key columns are needed too
+    let mut src_ys: Vec<u16> = r0.iter().chain(r1.iter()).copied().collect();
+    src_ys.sort();
+    src_ys.dedup();
+    for y in src_ys.iter() {
         let a = &layout.src_keys[*y as usize];
         if !matches!(a, Action::NoOp) {
             cnt += 1;
